@@ -17,9 +17,13 @@ import (
 	"encoding/hex"
 	"fmt"
 	"io"
+	"net/netip"
 	"os"
+	"reflect"
 	"strings"
 	"time"
+
+	"github.com/osrg/gobgp/v4/pkg/packet/bgp"
 
 	"github.com/osrg/gobgp/v4/pkg/packet/bfd"
 	"github.com/osrg/gobgp/v4/pkg/packet/bmp"
@@ -210,6 +214,153 @@ func fuzz(entry string, b []byte) string {
 	return "err unknown-entry"
 }
 
+// seeds: valid messages built with the packages' own constructors (every BMP message type and peer-header
+// flag set the daemon uses, MRT TABLE_DUMPv2 / BGP4MP subtypes incl. ADD-PATH), as mutation seeds and for
+// the round-trip oracle.
+func seeds() []string {
+	var out []string
+	add := func(pkg string, b []byte, err error) {
+		if err == nil {
+			out = append(out, "seed "+pkg+" "+hx(b))
+		}
+	}
+	open := bgp.NewTestBGPOpenMessage()
+	upd := bgp.NewTestBGPUpdateMessage()
+	notif := bgp.NewBGPNotificationMessage(6, 2, nil)
+	for _, fl := range []uint8{0, 16, 64, 128, 128 | 64, 32} {
+		for _, ad := range []string{"10.0.0.1", "fe80::6e40:8ff:feab:2c2a"} {
+			ph := bmp.NewBMPPeerHeader(0, fl, 1000, netip.MustParseAddr(ad), 70000, netip.MustParseAddr("10.0.0.2"), 1)
+			b, err := bmp.NewBMPPeerUpNotification(*ph, netip.MustParseAddr(ad), 10, 100, open, open).Serialize()
+			add("bmp", b, err)
+			b, err = bmp.NewBMPPeerUpNotification(*ph, netip.MustParseAddr(ad), 10, 100, open, open, bmp.NewBMPInfoTLVString(bmp.BMP_INIT_TLV_TYPE_VRF_TABLE_NAME, "global")).Serialize()
+			add("bmp", b, err)
+			b, err = bmp.NewBMPRouteMonitoring(*ph, upd).Serialize()
+			add("bmp", b, err)
+			b, err = bmp.NewBMPStatisticsReport(*ph, []bmp.BMPStatsTLVInterface{bmp.NewBMPStatsTLV32(bmp.BMP_STAT_TYPE_REJECTED, 100),
+				bmp.NewBMPStatsTLV64(bmp.BMP_STAT_TYPE_ADJ_RIB_IN, 200), bmp.NewBMPStatsTLVPerAfiSafi64(bmp.BMP_STAT_TYPE_PER_AFI_SAFI_LOC_RIB, bgp.AFI_IP, bgp.SAFI_UNICAST, 300)}).Serialize()
+			add("bmp", b, err)
+			for _, reason := range []uint8{1, 2, 3, 4, 5} {
+				var m *bmp.BMPMessage
+				switch reason {
+				case 1, 3:
+					m = bmp.NewBMPPeerDownNotification(*ph, reason, notif, nil)
+				case 2:
+					m = bmp.NewBMPPeerDownNotification(*ph, reason, nil, []byte{0, 3})
+				default:
+					m = bmp.NewBMPPeerDownNotification(*ph, reason, nil, nil)
+				}
+				b, err = m.Serialize()
+				add("bmp", b, err)
+			}
+			b, err = bmp.NewBMPRouteMirroring(*ph, []bmp.BMPRouteMirrTLVInterface{bmp.NewBMPRouteMirrTLV16(1, 0), bmp.NewBMPRouteMirrTLVBGPMsg(0, upd)}).Serialize()
+			add("bmp", b, err)
+		}
+	}
+	b, err := bmp.NewBMPInitiation([]bmp.BMPInfoTLVInterface{bmp.NewBMPInfoTLVString(1, "gobgp"), bmp.NewBMPInfoTLVUnknown(0xff, []byte{1, 2, 3})}).Serialize()
+	add("bmp", b, err)
+	b, err = bmp.NewBMPTermination([]bmp.BMPTermTLVInterface{bmp.NewBMPTermTLVString(0, "bye"), bmp.NewBMPTermTLV16(1, 2), bmp.NewBMPTermTLVUnknown(0xff, []byte{1})}).Serialize()
+	add("bmp", b, err)
+	// MRT
+	now := time.Unix(1700000000, 0)
+	mk := func(t mrt.MRTType, st mrt.MRTSubTyper, body mrt.Body) {
+		m, err := mrt.NewMRTMessage(now, t, st, body)
+		if err != nil {
+			return
+		}
+		b, err := m.Serialize()
+		add("mrt", b, err)
+	}
+	p1 := mrt.NewPeer(netip.MustParseAddr("192.168.0.1"), netip.MustParseAddr("10.0.0.1"), 65000, false)
+	p2 := mrt.NewPeer(netip.MustParseAddr("192.168.0.1"), netip.MustParseAddr("2001::1"), 135500, true)
+	mk(mrt.TABLE_DUMPv2, mrt.PEER_INDEX_TABLE, mrt.NewPeerIndexTable(netip.MustParseAddr("192.168.0.1"), "test", []*mrt.Peer{p1, p2}))
+	nh, _ := bgp.NewPathAttributeNextHop(netip.MustParseAddr("129.1.1.2"))
+	attrs := []bgp.PathAttributeInterface{bgp.NewPathAttributeOrigin(0), bgp.NewPathAttributeAsPath([]bgp.AsPathParamInterface{bgp.NewAs4PathParam(2, []uint32{1000, 70000})}), nh,
+		bgp.NewPathAttributeMultiExitDisc(5), bgp.NewPathAttributeLocalPref(100)}
+	n4, _ := bgp.NewIPAddrPrefix(netip.MustParsePrefix("192.168.0.0/24"))
+	n6, _ := bgp.NewIPAddrPrefix(netip.MustParsePrefix("2001:db8::/32"))
+	mk(mrt.TABLE_DUMPv2, mrt.RIB_IPV4_UNICAST, mrt.NewRib(1, bgp.RF_IPv4_UC, n4, []*mrt.RibEntry{mrt.NewRibEntry(0, 1, 0, attrs, false), mrt.NewRibEntry(1, 2, 0, attrs, false)}))
+	mk(mrt.TABLE_DUMPv2, mrt.RIB_IPV6_UNICAST, mrt.NewRib(2, bgp.RF_IPv6_UC, n6, []*mrt.RibEntry{mrt.NewRibEntry(0, 1, 0, attrs, false)}))
+	mk(mrt.TABLE_DUMPv2, mrt.RIB_IPV4_MULTICAST, mrt.NewRib(5, bgp.RF_IPv4_MC, n4, []*mrt.RibEntry{mrt.NewRibEntry(0, 1, 0, attrs, false)}))
+	mk(mrt.TABLE_DUMPv2, mrt.RIB_IPV6_MULTICAST, mrt.NewRib(6, bgp.RF_IPv6_MC, n6, []*mrt.RibEntry{mrt.NewRibEntry(0, 1, 0, attrs, false)}))
+	if vpn, err := bgp.NewLabeledVPNIPAddrPrefix(netip.MustParsePrefix("10.1.0.0/16"), *bgp.NewMPLSLabelStack(100), bgp.NewRouteDistinguisherTwoOctetAS(65000, 1)); err == nil {
+		mk(mrt.TABLE_DUMPv2, mrt.RIB_GENERIC, mrt.NewRib(7, bgp.RF_IPv4_VPN, vpn, []*mrt.RibEntry{mrt.NewRibEntry(0, 1, 0, attrs, false)}))
+	}
+	mk(mrt.TABLE_DUMPv2, mrt.RIB_IPV4_UNICAST_ADDPATH, mrt.NewRib(3, bgp.RF_IPv4_UC, n4, []*mrt.RibEntry{mrt.NewRibEntry(0, 1, 7, attrs, true), mrt.NewRibEntry(1, 2, 8, attrs, true)}))
+	mk(mrt.TABLE_DUMPv2, mrt.RIB_IPV6_UNICAST_ADDPATH, mrt.NewRib(4, bgp.RF_IPv6_UC, n6, []*mrt.RibEntry{mrt.NewRibEntry(0, 1, 9, attrs, true)}))
+	for _, as4 := range []bool{false, true} {
+		for _, ip := range [][2]string{{"192.168.0.1", "192.168.0.2"}, {"2001::1", "2001::2"}} {
+			if m, err := mrt.NewBGP4MPMessage(65000, 65001, 1, netip.MustParseAddr(ip[0]), netip.MustParseAddr(ip[1]), as4, upd); err == nil {
+				st := mrt.MESSAGE
+				if as4 {
+					st = mrt.MESSAGE_AS4
+				}
+				mk(mrt.BGP4MP, st, m)
+			}
+			if m, err := mrt.NewBGP4MPMessageLocal(65000, 65001, 1, netip.MustParseAddr(ip[0]), netip.MustParseAddr(ip[1]), as4, open); err == nil {
+				st := mrt.MESSAGE_LOCAL
+				if as4 {
+					st = mrt.MESSAGE_AS4_LOCAL
+				}
+				mk(mrt.BGP4MP, st, m)
+			}
+			if m, err := mrt.NewBGP4MPStateChange(65000, 65001, 1, netip.MustParseAddr(ip[0]), netip.MustParseAddr(ip[1]), as4, mrt.IDLE, mrt.ESTABLISHED); err == nil {
+				st := mrt.STATE_CHANGE
+				if as4 {
+					st = mrt.STATE_CHANGE_AS4
+				}
+				mk(mrt.BGP4MP, st, m)
+			}
+		}
+	}
+	return out
+}
+
+func roundtrip(pkg string, b []byte) string {
+	switch pkg {
+	case "bmp":
+		m, err := bmp.ParseBMPMessage(b)
+		if err != nil {
+			return "err"
+		}
+		b2, err := m.Serialize()
+		if err != nil {
+			return "serr"
+		}
+		m2, err := bmp.ParseBMPMessage(b2)
+		if err != nil {
+			return "reparse-err"
+		}
+		return fmt.Sprintf("ok %v %v", bytes.Equal(b, b2), reflect.DeepEqual(m, m2))
+	case "mrt":
+		h, err := mrt.ParseHeader(b)
+		if err != nil {
+			return "err"
+		}
+		hl := mrt.MRT_COMMON_HEADER_LEN
+		if h.Type.HasExtendedTimestamp() {
+			hl += 4
+		}
+		m, err := mrt.ParseBody(b[hl:], h)
+		if err != nil {
+			return "err " + strings.ReplaceAll(err.Error(), " ", "_")
+		}
+		b2, err := m.Serialize()
+		if err != nil {
+			return "serr"
+		}
+		h2, err := mrt.ParseHeader(b2)
+		if err != nil {
+			return "reparse-err"
+		}
+		m2, err := mrt.ParseBody(b2[hl:], h2)
+		if err != nil {
+			return "reparse-err"
+		}
+		return fmt.Sprintf("ok %v %v", bytes.Equal(b, b2), reflect.DeepEqual(m, m2))
+	}
+	return "err unknown"
+}
+
 func okerr(err error) string {
 	if err != nil {
 		return "err"
@@ -270,6 +421,10 @@ func run(line string) (out string) {
 		return fmt.Sprintf("ok (%d %d %d) %s", h.Version, h.Length, h.Type, hx(s))
 	case "zapihdr":
 		return zebra.VerifHeader(unhex(f[1]))
+	case "seeds":
+		return strings.Join(seeds(), "|")
+	case "rt":
+		return roundtrip(f[1], unhex(f[2]))
 	case "fuzz":
 		done := make(chan string, 1)
 		b := unhex(f[2])
